@@ -26,6 +26,20 @@ def iterTab (f : Int → Int) : Nat → Int → Int
   | 0, x => x
   | n+1, x => iterTab f n (f x)
 
+/-- number of `print_char` calls of `CSI Pn b` (REP): the parameter, clamped to one screenful -/
+def repCount (nums : List Int) (s : Scr) : Nat := (min (firstOr nums 1) (satMul s.tw s.th)).toNat
+/-- number of tab-stop searches of `CSI Pn Y` / `CSI Pn Z`: the parameter, clamped to the number of stops + 1 -/
+def tabCount (nums : List Int) (s : Scr) : Nat := (min (firstOr nums 1) ((s.tabs.length : Int) + 1)).toNat
+/-- iterations of the other parameter-driven loops of the repaired code (content only, no geometry effect);
+    `rowChars` / `rowsBelow` are the length of the caret row and the number of rows from the caret row on -/
+def ichCount (nums : List Int) (s : Scr) : Nat := (min (firstOr nums 1) s.tw).toNat
+def dchCount (nums : List Int) (rowChars : Int) : Nat := (min (firstOr nums 1) rowChars).toNat
+def ilCount (nums : List Int) (s : Scr) : Nat := (min (firstOr nums 1) s.th).toNat
+def dlCount (nums : List Int) (rowsBelow : Int) : Nat := (min (firstOr nums 1) rowsBelow).toNat
+def scrollCount (nums : List Int) (s : Scr) : Nat := (min (firstOr nums 1) s.th).toNat
+def scrollLRCount (nums : List Int) (s : Scr) : Nat := (min (firstOr nums 1) s.tw).toNat
+def upScrollCount (y : Int) (s : Scr) : Nat := (min (satSub s.firstEditable y) s.th).toNat
+
 /-- `CSI … <final>` in state ReadCSISequence(is_start); `current_escape_sequence` is not modelled -/
 def csiFinal (cfg : Cfg) (o : Orc) (st : St) (isStart : Bool) (ch : Char) : R :=
   let nums := st.p.nums
@@ -146,9 +160,7 @@ def csiFinal (cfg : Cfg) (o : Orc) (st : St) (isStart : Bool) (ch : Char) : R :=
     | _ => ret d .err
   else if ch = 'S' ∨ ch = 'T' then ret d .ok
   else if ch = 'b' then
-    let num := firstOr nums 1
-    let n := min num (satMul s.tw s.th)
-    liftSC d (printN n.toNat s c) .ok
+    liftSC d (printN (repCount nums s) s c) .ok
   else if ch = 'g' then
     if nums.length > 1 then ret d .err
     else
@@ -159,13 +171,11 @@ def csiFinal (cfg : Cfg) (o : Orc) (st : St) (isStart : Bool) (ch : Char) : R :=
   else if ch = 'Y' then
     if nums.length > 1 then ret d .err
     else
-      let n := min (firstOr nums 1) ((s.tabs.length : Int) + 1)
-      liftC d (limit s { c with x := iterTab (nextTabStop s.tabs s.tw) n.toNat c.x }) .ok
+      liftC d (limit s { c with x := iterTab (nextTabStop s.tabs s.tw) (tabCount nums s) c.x }) .ok
   else if ch = 'Z' then
     if nums.length > 1 then ret d .err
     else
-      let n := min (firstOr nums 1) ((s.tabs.length : Int) + 1)
-      liftC d (limit s { c with x := iterTab (prevTabStop s.tabs) n.toNat c.x }) .ok
+      liftC d (limit s { c with x := iterTab (prevTabStop s.tabs) (tabCount nums s) c.x }) .ok
   else
     let st1 := setSt st (.csi false)
     if '@' ≤ ch ∧ ch ≤ '~' then ret d .err
